@@ -1,7 +1,7 @@
 \* focused behaviours for the real-socket driver (failing sends, DNS query + other host): T = 1 unit (300 ms), the only clock step is a long idle period
 SPECIFICATION GenSpec
 CONSTANTS
-  Clients = {1, 2}
+  Clients = {1, 2, 3}
   IPOf <- GenIPOf
   Keys = {1}
   InitList <- GenInitList
@@ -27,6 +27,6 @@ CONSTANTS
   Slack = 0
   Bound = 0
   ZonedPanics = FALSE
-  GenLen = 9
+  GenLen = 10
 INVARIANTS DumpInv
 CHECK_DEADLOCK FALSE
